@@ -190,6 +190,9 @@ func (m *Machine) typeAssert(c *Config, x *ssa.TypeAssert) Value {
 			val = app(s, payloadFn(s), t)
 		} else if sl, isSl := at.Underlying().(*types.Slice); isSl && m.elemSort(sl.Elem()) == SBV8 {
 			val = m.unpackSlice(st, app(SBytes, "i.bytes", t), sl.Elem())
+		} else if pt, isPtr := at.Underlying().(*types.Pointer); isPtr {
+			// the pointer carried by an interface value is a function of that value
+			val = m.assertedPtr(t, at, pt)
 		} else {
 			st.abstract = true
 			val = m.freshValue("asserted", at)
@@ -673,4 +676,44 @@ func (m *Machine) typeByString(name string) types.Type {
 		t = types.NewPointer(t)
 	}
 	return t
+}
+
+// assertedPtr: x.(*T) yields the same pointer for the same interface value.
+func (m *Machine) assertedPtr(x Term, at types.Type, pt *types.Pointer) *PtrV {
+	// R.iface is the contract-level alias of the generated name of (reflect.Value).Interface
+	key := strings.ReplaceAll(stripZeroIte(x.S), "(R.iface ", "(X._reflect.Value_.Interface.r0 ") + "|" + typeString(at)
+	obj, ok := m.assertObjs[key]
+	if !ok {
+		obj = m.newObj("ptrof."+sanitize(x.S), pt.Elem(), false, "")
+		obj.Sym = true
+		m.assertObjs[key] = obj
+	}
+	return &PtrV{Obj: obj, Typ: at}
+}
+
+// stripZeroIte rewrites (ite c a <zero>) to a: the value of a comma-ok assertion
+// is only meaningful where ok holds.
+func stripZeroIte(t string) string {
+	es, err := readSExps(t)
+	if err != nil || len(es) != 1 {
+		return t
+	}
+	var rw func(e *SExp) *SExp
+	rw = func(e *SExp) *SExp {
+		if !e.IsL {
+			return e
+		}
+		if len(e.List) == 4 && e.List[0].Atom == "ite" && !e.List[3].IsL {
+			switch e.List[3].Atom {
+			case "rv.zero", "iface.nil", "opaque.nil", "rt.nil":
+				return rw(e.List[2])
+			}
+		}
+		n := &SExp{IsL: true}
+		for _, c := range e.List {
+			n.List = append(n.List, rw(c))
+		}
+		return n
+	}
+	return rw(es[0]).String()
 }
